@@ -330,13 +330,13 @@ def generate(ctx):
     # exhaustive float glue (strided in quick so that the budget holds)
     pairs = [(new, old) for old in range(2, top + 1) for new in range(1, old)]
     if not ctx.thorough():
-        pairs = [p for p in pairs if p[1] <= 40] + rng.sample(pairs, 700)
+        pairs = [p for p in pairs if p[1] <= 30] + rng.sample(pairs, 300)
     for new, old in pairs:
         yield "tofewer_bounds", {"new": new, "old": old}
     yield "tofewer_bounds", {"new": 0, "old": 3}
     sp = [(ln, k) for ln in range(0, 70 if not ctx.thorough() else 200) for k in range(1, 40 if not ctx.thorough() else 80)]
     if not ctx.thorough():
-        sp = rng.sample(sp, 500)
+        sp = rng.sample(sp, 300)
     for ln, k in sp:
         yield "split_evenly", {"len": ln, "k": k}
     for _ in range(ctx.n(60, 400)):
@@ -348,11 +348,11 @@ def generate(ctx):
             keys.sort()
         lo = rng.randint(0, 9)
         yield "boundary_slice", {"keys": keys, "lo": lo, "hi": rng.randint(lo, 10), "rb": rng.random() < 0.5}
-    for _ in range(ctx.n(1500, 15000)):
+    for _ in range(ctx.n(1000, 15000)):
         a = U.rand_divisions(rng, rng.randint(1, 6), 0, rng.choice([6, 12, 30]))
         force = rng.random() < 0.35
         yield "div_layer", {"a": a, "b": _rand_new_divs(rng, a, force), "force": force}
-    for _ in range(ctx.n(260, 2600)):
+    for _ in range(ctx.n(200, 2600)):
         nparts = rng.randint(1, 6)
         if rng.random() < 0.75:
             divs = U.rand_divisions(rng, nparts, 0, rng.choice([8, 14, 30]))
